@@ -14,8 +14,8 @@
 (*   UNK_ERR_IS_ERR: routers treat unknown types < 128 as errors (pinned: FALSE)*)
 (*   ROUTER_VERIFY_CKSUM: the simulated router verifies the checksum of SCMP     *)
 (*                   requests addressed to it by a router alert (pinned: FALSE)  *)
-(* (VERIFY_CKSUM and UNK_ERR_IS_ERR are TRUE in /repo since the fix: commits     *)
-(*  recorded in known_findings.d/C14.json.)                                      *)
+(* (all three are TRUE in /repo since the fix: commits recorded in              *)
+(*  known_findings.d/C14.json.)                                                  *)
 EXTENDS Naturals, Sequences, FiniteSets
 
 CONSTANTS VERIFY_CKSUM, UNK_ERR_IS_ERR, ROUTER_VERIFY_CKSUM
@@ -78,20 +78,25 @@ PMustNotAnswer(d)  == Class(d) \in {"malformed", "err", "uerr"}
 PMustNotify(d)     == Class(d) = "err"
 
 \* I-layer, end host (scion-stack).  parsed = the SDK's SCMP view accepts the payload.
-Accepted(d) == d.parsed /\ (VERIFY_CKSUM => d.ck)
-EchoHandler(d)  == IF Accepted(d) /\ d.t = 128 /\ d.rev /\ d.addr THEN 1 ELSE 0      \* number of replies
+\* (the *V operators take the switch as an argument: the tables evaluate the broken variants as oracle self-checks)
+EchoHandlerV(d, verify) == IF d.parsed /\ (verify => ~Malformed(d)) /\ d.t = 128 /\ d.rev /\ d.addr THEN 1 ELSE 0
+EchoHandler(d)  == EchoHandlerV(d, VERIFY_CKSUM)                                       \* number of replies
 ErrorHandler(d) == IF d.parsed /\ d.t \in KnownErr THEN 1 ELSE 0                      \* notifications per receiver
 
 \* I-layer, simulated router (pocketscion): answers a packet it cannot forward/deliver with an SCMP
 \* error unless the packet is an SCMP error; o = descriptor of the offending packet
 \* (o.scmp = FALSE for UDP and other payloads)
-RouterSeesError(o) == o.scmp /\ o.parsed /\ (o.t \in KnownErr \/ (UNK_ERR_IS_ERR /\ IsErrType(o.t)))
-RouterAnswers(o) == IF o.scmp /\ ~o.parsed THEN 0          \* try_classify fails: simulation error, nothing sent
-                    ELSE IF RouterSeesError(o) THEN 0 ELSE 1
+RouterAnswersV(o, unk) == IF o.scmp /\ ~o.parsed THEN 0          \* try_classify fails: simulation error, nothing sent
+                          ELSE IF o.scmp /\ o.parsed /\ (o.t \in KnownErr \/ (unk /\ IsErrType(o.t))) THEN 0 ELSE 1
+RouterAnswers(o) == RouterAnswersV(o, UNK_ERR_IS_ERR)
 \* P-layer for routers: an SCMP error (ANY type below 128) never triggers a message
 PRouterMustNotAnswer(o) == o.scmp /\ o.has4 /\ IsErrType(o.t)
 
-\* I-layer, simulated router answering SCMP requests addressed to it by a router alert
-\* (handle_scmp): echo and traceroute requests are answered, everything else is an error of the simulation
-RouterEcho(d) == IF d.parsed /\ (ROUTER_VERIFY_CKSUM => ~Malformed(d)) /\ d.t \in {128, 130} THEN 1 ELSE 0
+\* I-layer, simulated router answering SCMP requests addressed to it by a router alert (handle_scmp):
+\* an echo request gets an echo reply, a traceroute request a traceroute reply (same identifier and
+\* sequence number, the router's ISD-AS and the alerted interface), both from the router's address to the
+\* requester over the reversed path; everything else is an error of the simulation (nothing sent)
+RouterEchoV(d, verify) == IF d.parsed /\ (verify => ~Malformed(d)) /\ d.t \in {128, 130} THEN 1 ELSE 0
+RouterEcho(d) == RouterEchoV(d, ROUTER_VERIFY_CKSUM)
+RouterReplyType(t) == IF t = 128 THEN 129 ELSE IF t = 130 THEN 131 ELSE 0
 =============================================================================
